@@ -724,7 +724,23 @@ func (e *Engine) owner(fn *ssa.Function) bool {
 		}
 		return false
 	}
-	return e.cfg.Owners[core.RelPkg(p)+"."+name]
+	if e.cfg.Owners[core.RelPkg(p)+"."+name] {
+		return true
+	}
+	// a type of the package that wraps the cursor (type scanner struct{ *parse.Input }): its methods are scanners too
+	if rt := fn.Signature.Recv().Type(); rt != nil {
+		if pt, isPtr := rt.Underlying().(*types.Pointer); isPtr {
+			rt = pt.Elem()
+		}
+		if st, isSt := rt.Underlying().(*types.Struct); isSt {
+			for i := 0; i < st.NumFields(); i++ {
+				if tp, ok := modTypePath(st.Field(i).Type()); ok && tp == "parse.Input" {
+					return true
+				}
+			}
+		}
+	}
+	return false
 }
 
 func (e *Engine) call(fi *fnInfo, st *State, in *ssa.Call) []*State {
